@@ -41,6 +41,8 @@ combs = z3.Function('combs', ISeq, Int, CSeq)     # itertools.combinations(s,k) 
 sat = z3.Function('sat', Asg, CSeq, Bool)         # every clause true
 cmaxabs = z3.Function('cmaxabs', CSeq, Int)       # max |literal| over all clauses (0 if none)
 chaszero = z3.Function('chaszero', CSeq, Bool)    # some clause contains the literal 0
+IArr = z3.ArraySort(Int, Int)
+psum = z3.Function('psum', IArr, IArr, Int, Int)   # psum(I,W,t) = sum_{s<t} (I[s]-1)*W[s]   (mixed-radix value)
 pow2 = z3.Function('pow2', Int, Int)              # 2**x for x >= 0
 
 # ---- pseudo-Boolean terms / constraints ---------------------------------------------
@@ -83,7 +85,7 @@ FUNCS = dict(tlen=tlen, tcoef=tcoef, tlit=tlit, tunit=tunit, tnegc=tnegc, tset=t
              ilen=ilen, iget=iget, inil=inil, isnoc=isnoc, iapp=iapp, ineg=ineg, haszero=haszero,
              maxof=maxof, minof=minof, maxabs=maxabs, lit_true=lit_true, count=count, ctrue=ctrue,
              clen=clen, cget=cget, cnil=cnil, csnoc=csnoc, capp=capp, ctake=ctake, combs=combs, sat=sat,
-             cmaxabs=cmaxabs, pow2=pow2, chaszero=chaszero)
+             cmaxabs=cmaxabs, pow2=pow2, chaszero=chaszero, psum=psum)
 
 
 def zmax(a, b):
@@ -216,6 +218,15 @@ def _on_terms(terms_by_decl):
         out.append(z3.Implies(x >= 1, pow2(x) == 2 * pow2(x - 1)))
         out.append(z3.Implies(x >= 0, pow2(x + 1) == 2 * pow2(x)))
     out += _opb_on_terms(terms_by_decl)
+    ps = terms_by_decl.get('psum', [])
+    for (I, W, t) in ps:
+        # Block.lean psum_zero / psum_succ / psum_store_ge
+        out.append(z3.Implies(t == 0, psum(I, W, t) == 0))
+        out.append(z3.Implies(t >= 0, psum(I, W, t + 1) == psum(I, W, t) + (z3.Select(I, t) - 1) * z3.Select(W, t)))
+        out.append(z3.Implies(t >= 1, psum(I, W, t) == psum(I, W, t - 1) + (z3.Select(I, t - 1) - 1) * z3.Select(W, t - 1)))
+        if z3.is_app(I) and I.decl().kind() == z3.Z3_OP_STORE:
+            I0, k, v = I.children()
+            out.append(z3.Implies(k >= t, psum(I, W, t) == psum(I0, W, t)))
     out.append(clen(cnil) == 0)
     out.append(ilen(inil) == 0)
     out.append(cmaxabs(cnil) == 0)
